@@ -10,6 +10,7 @@ package verifsim
 
 import (
 	"encoding/json"
+	"flag"
 	"fmt"
 	"os"
 	"runtime"
@@ -295,6 +296,7 @@ func Violf(prop, oracle, sig, format string, args ...any) *Violation {
 var (
 	classMu  sync.Mutex
 	pinClass string
+	pinViol  string // text of the first violation seen
 )
 
 // Report fails the rapid run with the violation (if v != nil). Once a first
@@ -309,6 +311,7 @@ func Report(rt *rapid.T, v *Violation, tr *Trace) {
 	classMu.Lock()
 	if pinClass == "" {
 		pinClass = class
+		pinViol = v.String()
 	}
 	same := pinClass == class
 	classMu.Unlock()
@@ -388,10 +391,15 @@ func Hex(b []byte) string {
 }
 
 // ---------------------------------------------------------------------------
-// Check wraps rapid.Check: it dumps statistics at the end of the test and
-// honours the wall-clock budget $VERIF_BUDGET_S (a harness-level cap on how many
-// runs are started; it never influences what happens inside a run). Once a
-// violation has been seen the budget is ignored so that shrinking is unaffected.
+// Check wraps rapid.Check: it dumps statistics at the end of the test, honours
+// the wall-clock budget $VERIF_BUDGET_S (a harness-level cap on how many runs are
+// started; it never influences what happens inside a run; ignored once a
+// violation has been seen so that shrinking is unaffected), and runs a hang
+// watchdog: a run that does not finish within $VERIF_HANG_S (default 60) real
+// seconds is a livelock in the code under test (deadlocks are caught by
+// synctest); rapid cannot shrink that, so the process reports the violation
+// together with the rapid seed of the run ("VERIF-SEEDREPLAY seed=N"), which
+// replays it as `-rapid.seed=N -rapid.checks=1`.
 func Check(t *testing.T, prop func(rt *rapid.T)) {
 	t.Helper()
 	t.Cleanup(func() { G.Dump(t.Name()) })
@@ -401,17 +409,88 @@ func Check(t *testing.T, prop func(rt *rapid.T)) {
 			budget = time.Duration(f * float64(time.Second))
 		}
 	}
+	hang := 60 * time.Second
+	if s := os.Getenv("VERIF_HANG_S"); s != "" {
+		if f, err := strconv.ParseFloat(s, 64); err == nil {
+			hang = time.Duration(f * float64(time.Second))
+		}
+	}
+	var baseSeed uint64
+	if f := flag.Lookup("rapid.seed"); f != nil {
+		baseSeed, _ = strconv.ParseUint(f.Value.String(), 10, 64)
+	}
+	var (
+		wmu       sync.Mutex
+		iter      uint64 // runs started in the search phase
+		curSeed   uint64
+		runStart  time.Time
+		running   bool
+		failSeed  uint64 // seed of the first failing run
+		firstViol string
+	)
+	done := make(chan struct{})
+	defer close(done)
+	go func() {
+		tk := time.NewTicker(500 * time.Millisecond)
+		defer tk.Stop()
+		for {
+			select {
+			case <-done:
+				return
+			case <-tk.C:
+			}
+			wmu.Lock()
+			stuck := running && time.Since(runStart) > hang
+			seed, fs, fv := curSeed, failSeed, firstViol
+			wmu.Unlock()
+			if !stuck {
+				continue
+			}
+			buf := make([]byte, 1<<16)
+			buf = buf[:runtime.Stack(buf, true)]
+			if fv != "" {
+				// hang while shrinking an earlier violation: report that one, unshrunk.
+				fmt.Printf("VERIF-NOTE a shrink candidate hung; reporting the original violation unshrunk\n%s\nVERIF-SEEDREPLAY seed=%d\n", fv, fs)
+			} else {
+				prop := os.Getenv("VERIF_PROP")
+				fmt.Printf("%s\nVERIF-SEEDREPLAY seed=%d\n", (&Violation{Prop: prop, Oracle: "hang", Sig: "hang",
+					Detail: fmt.Sprintf("run did not finish within %v of wall time (livelock in code under test)", hang)}).String(), seed)
+			}
+			fmt.Printf("VERIF-STACKS\n%s\n", buf)
+			G.Dump(t.Name())
+			os.Exit(3)
+		}
+	}()
 	start := time.Now()
 	rapid.Check(t, func(rt *rapid.T) {
-		if budget > 0 && time.Since(start) > budget {
-			classMu.Lock()
-			pinned := pinClass != ""
-			classMu.Unlock()
-			if !pinned {
-				G.Inc("budget_skipped_runs")
-				return
-			}
+		classMu.Lock()
+		pinned := pinClass != ""
+		classMu.Unlock()
+		if budget > 0 && !pinned && time.Since(start) > budget {
+			G.Inc("budget_skipped_runs")
+			wmu.Lock()
+			iter++
+			wmu.Unlock()
+			return
 		}
+		wmu.Lock()
+		if !pinned {
+			// rapid's search phase uses seed_i = seed_{i-1} + i (cumulative).
+			curSeed = baseSeed + iter*(iter+1)/2
+			iter++
+		}
+		running, runStart = true, time.Now()
+		wmu.Unlock()
+		defer func() {
+			wmu.Lock()
+			running = false
+			classMu.Lock()
+			if pinClass != "" && firstViol == "" {
+				firstViol, failSeed = pinViol, curSeed
+			}
+			classMu.Unlock()
+			wmu.Unlock()
+		}()
 		prop(rt)
 	})
 }
